@@ -102,6 +102,9 @@ def c03(tier):
     # greedy grouping needs several passes
     for i in range(nrandom // 6):
         texts.append(gen.comb_grid(r) if i % 2 == 0 else (gen.walk_grid(r) if i % 4 == 1 else gen.hatch_grid(r, diag="+")))
+    # rails with bars between them: boxes and everything next to a box (bars not under the corners, rails that differ)
+    for i in range(nrandom // 6):
+        texts.append(gen.rail_grid(r))
     # the statement's alphabet, and nothing else (a generator that strays outside it must not turn into an alarm)
     allowed = set("-|+ \n" + gen.LABELS)
     stray = [t for t in texts if not set(t) <= allowed]
@@ -315,6 +318,8 @@ def c10(tier):
         cells = {(c[0], c[1]): chr(c[2]) for c in e["span"]}
         hh, ww = max(y for (_, y) in cells) + 1, max(x for (x, _) in cells) + 1
         return "\n".join("".join(cells.get((x, y), " ") for x in range(ww)).rstrip() for y in range(hh))
+    if len(corpus) % 2:
+        corpus.append("ab")          # (pairs are taken two by two from here on)
     for key in ("quarter", "half", "three_quarters"):
         ents = tabs10[key]
         for _ in range(10 if tier == "quick" else 120):
@@ -322,6 +327,17 @@ def c10(tier):
             a_, b_ = art_of(ents[i_]), art_of(r.choice(ents[max(0, i_ - 4):i_ + 5]))
             if a_.strip() and b_.strip():
                 corpus += [a_, b_]
+        # ... and every pair of entries of which one drawing is part of the other (the table is searched for the first
+        # entry whose cells are all there: the order of the search decides), the smaller one first and the larger one first
+        norm = []
+        for e in ents:
+            cells = {(c[0], c[1]): c[2] for c in e["span"]}
+            mx, my = min(x for x, _ in cells), min(y for _, y in cells)
+            norm.append({(x - mx, y - my): ch for (x, y), ch in cells.items()})
+        sub = [(i_, j_) for i_ in range(len(ents)) for j_ in range(len(ents))
+               if i_ != j_ and len(norm[i_]) < len(norm[j_]) and all(norm[j_].get(k_) == v_ for k_, v_ in norm[i_].items())]
+        for (i_, j_) in (r.sample(sub, min(len(sub), 10)) if tier == "quick" else sub):
+            corpus += [art_of(ents[i_]), art_of(ents[j_]), art_of(ents[j_]), art_of(ents[i_])]
     for _ in range(12 if tier == "quick" else 200):
         w_ = r.randint(1, 8)
         corpus += [gen.random_grid(r, w_, 1, "ab-+", 1.0) + r.choice(gen.WIDE[:8]),
@@ -1493,7 +1509,8 @@ def c05(tier):
                 top[tl], top[W - 1 - tr], bot[bl], bot[W - 1 - br] = ".", ".", "'", "'"
                 rows = ["".join(top)] + ["|" + " " * w + "|"] * h + ["".join(bot)]
                 mixed.append("\n".join((" " * k + x).rstrip() for x in rows))
-    observe_events(run, gen.dedup(muts + rnd + corpus + mixed + pool(r, tier, gen.tame, 900)), ["C05s"], "soundness")
+    rails = [gen.rail_grid(r) for _ in range(n // 3)]
+    observe_events(run, gen.dedup(muts + rnd + corpus + mixed + rails + pool(r, tier, gen.tame, 900)), ["C05s"], "soundness")
     run.samples.append({"input": muts[0]})
     run.validate()
     from . import stages
@@ -1850,7 +1867,8 @@ def nested_boxes(r, depth):
         # width some tables call ambiguous - each takes one cell here
         room = c_tag - 1
         if room >= 2:
-            wd_ = "".join(r.choice(r.choice(["abc", "дфж", "éüñ", "αβγ", "★☆", "①②③", "§±°·", "…“”"])) for _ in range(r.randint(2, room)))
+            script_ = r.choice(["abc", "дфж", "éüñ", "αβγ", "★☆", "①②③", "§±°·", "…“”", "★①§…"])
+            wd_ = "".join(r.choice(script_) for _ in range(r.choice([room, room, r.randint(2, room)])))
             lines[0] = (wd_ + " " * (c_tag - len(wd_)) + tagtxt).ljust(inner_w)
     tag_pos = [(0, c_tag, names)]          # (row, col) relative to the content block
     if label:
